@@ -156,6 +156,9 @@ def main(run):
     recs, inc = explore(run, "OrderAlphabet", "LayoutIncFiles", 4 if thorough else 3, 1, [512], extra=("moves",),
                         label="AsmCore order, 1 file (exhaustive, with MoveInvariant)", timeout=3000)
     tasks = replay_all(run, recs, inc, {"harness_link": True}, nontrivial)
+    recs4, inc4 = explore(run, "OrderCoreAlphabet", "LayoutIncFiles", 5 if thorough else 4, 1, [512],
+                          label=f"AsmCore order core, all programs of <= {5 if thorough else 4} statements", timeout=3000)
+    tasks += replay_all(run, recs4, inc4, {"harness_link": True}, nontrivial)
     recs2, inc2 = explore(run, "OrderAlphabet", "LayoutIncFiles", 7, 1, [512], simulate=(6000 if thorough else 700), depth=8,
                           seed=run.seed + 13, label="AsmCore order simulation (<= 7 stmts)")
     tasks += replay_all(run, recs2, inc2, {"harness_link": True}, nontrivial)
